@@ -13,27 +13,33 @@ EXTRACT_TARGETS = ['Extract/Ex_addgrad.vo']
 RUNNER = 'addgrad'
 LEVEL = 'proof'
 MANIFEST = {
-    'text': "Theorems (Coq, any number of inputs, over the piecewise-linear library Base/PWL.v): the equal-timing "
+    'text': "Theorems (Coq, any number of inputs, over the piecewise-linear library Base/PWL.v): (1) the equal-timing "
             "trapezoid path returns the trapezoid whose rendering is the sum of the input renderings plus the "
-            "code's eps*unit-trapezoid; the extended-trapezoid path (union of corner times, interpolation of every "
-            "input on the common grid, summation) renders at EVERY time to the sum of the input renderings when no "
-            "input starts/ends away from zero in the interior of the common support; the raster path returns, at "
-            "every raster centre, the sum of the input samples; duration = max, first/last, single input = "
-            "identity, and the limit tests raise exactly beyond max_grad+eps / max_slew(1+eps) of the limits the "
-            "code forwards. The extracted model is run against add_gradients on ~1500 (quick) generated input "
-            "lists (1-4 gradients, all kind mixes); the pointwise-sum predicate is evaluated with exact Fractions "
-            "on the implementation's own inputs and output at all corner times, +-raster/8 and midpoints.",
+            "code's eps*unit-trapezoid; (2) the extended-trapezoid path (union of corner times, interpolation of "
+            "every input on the common grid, summation) renders at EVERY time to the sum of the input renderings "
+            "for every input list one block can hold (C05 rules: timings on the raster, non-zero start only with "
+            "zero delay, non-zero end only at the block end; proved to imply the StartsOk/EndsOk hypotheses); (3) "
+            "the raster path equals, at EVERY raster centre, the sum of the input renderings (points_to_waveform "
+            "samples identified with eval at the centres); duration = longest input duration on all three paths, "
+            "first/last sums, single input = identity; on each path add_gradients raises exactly when the sum "
+            "exceeds max_grad+eps / max_slew(1+eps) of the limits the code forwards, and a returned "
+            "extended-trapezoid sum is within them at every time. The extracted model is run against add_gradients "
+            "on ~1500 (quick) generated input lists (1-4 gradients, all kind mixes, incl. pieces of split gradients "
+            "meeting at a non-zero value of either sign); the pointwise-sum predicate is evaluated with exact "
+            "Fractions on the implementation's own inputs and output at all corner times, +-raster/8 and midpoints.",
     'note': 'Trusted: Coq kernel; translator patterns for add_gradients.py and the makers; extraction '
             '(ExtrOcamlBasic) + driver; binary64/NumPy arithmetic outside the model (sampled by correspondence, '
-            'guard band around the limit thresholds); input aliasing checked by snapshot only.',
+            'guard band around the limit thresholds); input aliasing checked by snapshot only; pieces that meet at '
+            'a non-zero junction (the tt[0]+=eps convention) are covered by oracle + correspondence, not by theorem.',
     'technique': 'Rocq/Coq proof over a Gallina model (induction over the input list / corner lists) + '
                  'extraction-based correspondence',
 }
 BUDGET = {'quick': 80, 'thorough': 1500}
 MISMATCH_BUDGET = 0.0
-RULE = ('input lists of 1-4 gradients on channel x drawn from 8 streams (equal-timing trapezoids, unequal '
+RULE = ('input lists of 1-4 gradients on channel x drawn from 9 streams (equal-timing trapezoids, unequal '
         'trapezoids, trapezoid+extended, extended only, mixes with arbitrary gradients, cancelling pairs, '
-        'limit-override cases, near-limit sums); times are integer multiples of the raster of a random system, '
+        'limit-override cases, near-limit sums, junction = pieces made by split_gradient_at / split_gradient / by hand '
+        'from trapezoids and extended trapezoids of both signs, meeting at a shared corner at a non-zero value); times are integer multiples of the raster of a random system, '
         'amplitudes integers; a gradient starts/ends away from zero only at time 0 / at the common end (the '
         'block rule). Oracle per case: exact rendering of inputs and result compared at every corner time, '
         '+-raster/8 and midpoints (raster centres on the sampled path), first/last, duration=max, inputs '
@@ -203,11 +209,12 @@ def gen_junction(rng, S, amax, kmax):
                 pieces[j:j + 1] = list(hand_split(pieces[j], k2))
     else:
         pieces = [base]
-    pieces = [q for q in pieces if len(q['tt']) >= 2]
-    if rng.random() < 0.35:         # an unrelated gradient on top (its corners fall inside the pieces' segments)
+    # an unrelated gradient on top (its corners fall inside the pieces' segments); never drop a piece: the sum
+    # of an incomplete set of pieces has a jump and is not a legal input
+    if rng.random() < 0.35 and len(pieces) <= 3:
         pieces.append(rng.choice([gen_trap, gen_ext, gen_arb])(rng, S, amax // 3 + 1, kmax))
     rng.shuffle(pieces)
-    return pieces[:4] if len(pieces) > 4 else pieces
+    return pieces
 
 
 def gen_case(rng, tier, i):
